@@ -39,6 +39,7 @@ CONSTANTS N1,                  \* size of the home LAN (net1 = 0..N1-1)
                                \*   "offers"    findByIP also matches the address under OFFER of a lease in discover state
                                \*   "selfree"   a select on a free lease is answered with NAK
                                \*   "stale"     a free lease forgets its stale offer
+                               \*   "shadow"    findByIP skips free leases (they keep their last address)
 
 VARIABLES lease,     \* CIDs -> Nil | [st, mac, ip, offer, xid, net, exp]      Handler.table
           next,      \* {1,2} -> address                                       dhcpSubnet.nextIP
@@ -120,7 +121,8 @@ FindOrCreate(s, k, m) ==
 
 \* lease.go findByIP looks at Lease.Addr.IP only (never at IPOffer) and returns the first match in
 \* map order; with several matches the model takes the order that lets the allocation through.
-Matches(L, a)          == {j \in CIDs : L[j] # Nil /\ (L[j].ip = a \/ ("offers" \in Fixed /\ L[j].st = "discover" /\ L[j].offer = a))}
+Matches(L, a)          == {j \in CIDs : L[j] # Nil /\ (\/ (L[j].ip = a /\ ("shadow" \in Fixed => L[j].st # "free"))
+                                                           \/ ("offers" \in Fixed /\ L[j].st = "discover" /\ L[j].offer = a))}
 NotBlockedReq(L, a, k) == LET M == Matches(L, a) IN M = {} \/ \E j \in M : L[j].st = "free" \/ j = k
 NotBlockedScan(L, a)   == LET M == Matches(L, a) IN M = {} \/ \E j \in M : L[j].st = "free"
 FreeAddr(s, a)         == NotBlockedScan(s.lease, a) /\ HostAt(s.hosts, a) = NoMac
@@ -423,6 +425,12 @@ ReleaseCapture(m) == ReleaseCaptureM(m) /\ PropIdle
 
 TickM(far) == lease' = TickOp(lease, far) /\ Quiet /\ UNCHANGED <<next, file, hosts, ment>>
 Tick(far) == TickM(far) /\ PropTick(far)
+
+\* a quiet period of 6 s: every outstanding offer is past its validity (Lease.OfferExpiry; the server never reads it)
+AgeM == Quiet /\ UNCHANGED <<lease, next, file, hosts, ment>>
+AgeR == /\ obs' = [j \in CIDs |-> [obs[j] EXCEPT !.old = (obs[j].offer # NoA)]]
+        /\ acked' = acked /\ verdict' = {}
+Age == AgeM /\ AgeR
 
 \* another host (or a client outside DHCP) shows traffic from address a
 ForeignTrafficM(m, a) == /\ LET b == Bind(hosts, ment, m, a) IN hosts' = b.h /\ ment' = b.me
